@@ -27,6 +27,8 @@ func c15(c *eng.Ctx, r *eng.Report) {
 		"R15.8 the key a member's shares are verified under is bound once: the stored share public key is written only on the not-yet-stored edge (first announcement wins; an announcement is only self-signed, so a later one naming the same member proves nothing), and only AddMemberSignPk writes it. " +
 		"R15.10 a panic raised while handling one message ends that message, not the party: the deferred recover() of baseParty.Update neither sends on the party's Err channel nor calls anything that does (ID.Serialize panics on an over-long signer id, which the wire decoder lets through); " +
 		"R15.12 the key a share is verified under is the sender's key in this block's group: every key GetMemberSignPubKey(group, member) returns comes from GetMemberSignPK(member) on the record GetJoinedGroupInfo(group) returned — not from a store keyed by the member alone (a miner sits in several groups with a different share key in each); " +
+		"R15.14 the share sets are fed by the checked path only: outside the generator's own methods the only function that calls AddWitnessSign/addWitnessForce is (*round1).Update, whose two call sites R15.1 decides — a second feeder (a batch path over parked messages that verifies the recovered result instead of each piece) lets one bad piece into the set, and what it leaves behind blocks the honest shares; " +
+		"R15.15 a party parks every early message: baseParty.StoreMessage reaches its futureMessages update on every path (no return precedes it) — a quota counted before any signature is checked is filled by one faulty member's forged messages and the honest shares that arrive afterwards are dropped; " +
 		"R15.13 a verify message is identified by the digest of its whole wire form: the Id that UnMarshalConsensusVerifyMessage assigns — the key of CanAccept, futureMessages and processed — is computed by a hash over the received bytes, not from fields the sender fills in (a forged piece naming another member would otherwise occupy that member's id and the genuine share be dropped as a duplicate); " +
 		"R15.11 the share sets recover as soon as the threshold is reached: the comparison of the number of collected shares with the threshold in both generators is `count >= threshold` (not `>`): with exactly threshold valid shares the block must finalise; " +
 		"R15.9 garbage from one member cannot end the round: round1.Update returns a non-nil *Error — which terminates the signing party for everyone — only on conditions that do not depend on the content of the message (it is not a verify message; the block is already on chain); a share that fails any check is dropped with `return nil`. " +
@@ -45,6 +47,8 @@ func c15(c *eng.Ctx, r *eng.Report) {
 	c15ThresholdCompare(c, r)
 	c15KeyOfThisGroup(c, r)
 	c15MessageIdIsDigest(c, r)
+	c15OnlyCheckedPathFeedsShares(c, r)
+	c15PartyParksEverything(c, r)
 }
 
 // c15Parking: a verify message that arrives before its party exists is parked
@@ -743,4 +747,60 @@ func c15MessageIdIsDigest(c *eng.Ctx, r *eng.Report) {
 		}
 	}
 	r.Check(bad == "" && n >= 1, rule, "verify-message:id-is-digest", c.Pos(fn.Pos()), "Id is a hash of the received bytes", "the Id of a verify message is "+bad+", not a digest of the received bytes: it is built from fields the sender chooses, and the signer field is not authenticated when the id is used for de-duplication (CanAccept, futureMessages, processed) — a forged piece that names member A takes A's id first, and A's genuine share is then dropped as already processed, so one faulty member keeps a block with exactly threshold honest shares from finalising")
+}
+
+// c15OnlyCheckedPathFeedsShares: see R15.14.
+func c15OnlyCheckedPathFeedsShares(c *eng.Ctx, r *eng.Report) {
+	const rule = "R15.14"
+	r.Min(rule, 1)
+	n := 0
+	for _, fn := range c.ModFuncs() {
+		if fn.Blocks == nil || strings.Contains(eng.FuncPkgPath(fn), "_test") {
+			continue
+		}
+		name := eng.FuncName(fn)
+		if strings.HasPrefix(name, "(*consensus/logical.groupSignGenerator).") {
+			continue
+		}
+		for _, s := range eng.Sites(fn) {
+			nm := s.Name()
+			if nm != "(*consensus/logical.groupSignGenerator).AddWitnessSign" && nm != "(*consensus/logical.groupSignGenerator).addWitnessForce" {
+				continue
+			}
+			n++
+			r.Check(name == "(*consensus/logical.round1).Update", rule, "share-feeder:"+name, c.Pos(s.Pos()), "the per-piece checked path of round 1", name+" adds a piece to a share set outside round1.Update: the piece has not passed the per-sender checks (member key of this group, data hash == this block's hash, share valid under that key, beacon share valid for the previous beacon) — verifying only what the set recovers to admits a well-formed piece signed with a wrong key, and whatever the fallback forgets to clear (a recovered invalid signature keeps SignRecovered() true) makes every later valid share be answered 'already had the piece': the party is stuck and the block does not finalise")
+		}
+	}
+	if n == 0 {
+		r.Fail(rule, "share-feeder:none", "", "no AddWitnessSign call outside the generator: the rule has lost its anchor")
+	}
+}
+
+// c15PartyParksEverything: see R15.15.
+func c15PartyParksEverything(c *eng.Ctx, r *eng.Report) {
+	const rule = "R15.15"
+	r.Min(rule, 1)
+	fn := c.Func(logicalPkg, "(*baseParty).StoreMessage")
+	if !r.Anchor(fn != nil, rule, "(*baseParty).StoreMessage") {
+		return
+	}
+	var upd ssa.Instruction
+	for _, b := range fn.Blocks {
+		for _, in := range b.Instrs {
+			if mu, ok := in.(*ssa.MapUpdate); ok && strings.HasSuffix(eng.Desc(mu.Map), ".futureMessages") {
+				upd = in
+			}
+		}
+	}
+	if upd == nil {
+		r.Fail(rule, "StoreMessage:parks-always", c.Pos(fn.Pos()), "baseParty.StoreMessage no longer updates futureMessages: early messages are not parked (or the parking moved and must be re-reviewed)")
+		return
+	}
+	bad := ""
+	for _, re := range eng.Returns(fn) {
+		if !eng.Dominates(upd, re.Ret) {
+			bad = c.Pos(re.Ret.Pos())
+		}
+	}
+	r.Check(bad == "", rule, "StoreMessage:parks-always", c.Pos(upd.Pos()), "every return of StoreMessage follows the futureMessages update", "baseParty.StoreMessage can return (at "+bad+") without parking the message: whatever decides that is evaluated before any signature was checked, so one faulty member sending enough distinct forged verify messages during the round-0 wait uses it up, the honest shares that arrive afterwards are discarded and the block is never finalised")
 }
